@@ -5,6 +5,7 @@ import (
 	"fmt"
 	"os"
 	"strings"
+	"sync"
 	"testing"
 
 	"verifsim/keys"
@@ -36,7 +37,47 @@ func runWorld(t *testing.T, o *sim.Outcome, p *GPlan, fr *fresh, exec string, ex
 			return
 		}
 		w.setupAgent()
+		first := 0
+		if p.Overlap && len(p.Runs) >= 2 && !p.Enum {
+			// two requests in one process at the same time (DESIGN 14.2): run 0 waits for its agent at request
+			// OverlapAt, run 1 is served completely in a sibling world (own forwarded agent, own connection, same
+			// configuration object, same key directory, same process), then run 0 goes on
+			wB := &world{plan: p, dir: dir, oldSig: map[string][]byte{}, conf: w.conf, confErr: w.confErr}
+			wB.setupAgent()
+			gate := make(chan struct{})
+			reachedCh := make(chan struct{})
+			var once sync.Once
+			reached := func() { once.Do(func() { close(reachedCh) }) }
+			exA := noExtra()
+			exA.gateAt, exA.gate, exA.reached = p.OverlapAt, gate, reached
+			var obA *runObs
+			doneA := make(chan struct{})
+			go func() {
+				defer close(doneA)
+				obA = w.doRun(&p.Runs[0], exA)
+				reached() // (fewer requests than OverlapAt: the two requests then follow each other)
+			}()
+			<-reachedCh
+			select {
+			case <-doneA:
+			default:
+				o.Probe("two_requests_in_one_process_at_the_same_time")
+			}
+			obB := wB.doRun(&p.Runs[1], noExtra())
+			close(gate)
+			<-doneA
+			w.runs = append(w.runs, obB)
+			if check {
+				checkRun(o, w, 0, &p.Runs[0], obA, fr, exec)
+				checkRun(o, wB, 1, &p.Runs[1], obB, fr, exec)
+			}
+			wB.closeShared()
+			first = 2
+		}
 		for i := range p.Runs {
+			if i < first {
+				continue
+			}
 			run := &p.Runs[i]
 			ex := noExtra()
 			if i == len(p.Runs)-1 {
